@@ -54,6 +54,33 @@ def gen_simulated(num, depth, seed):
     return _scripts_from(r.out), r
 
 
+def split_gated(scripts):
+    """BusGen marks with `release` the bus's first hand-over of a published event. Returns (plain, gated):
+    plain = the scripts without the marks (free-running replays); gated = scripts in which a `pub` that is
+    followed by its `release` becomes `hpub` (the harness holds the bus's loop at its fan-out gate until the
+    `release`), so the calls in between run while the event is in flight."""
+    plain, gated = set(), set()
+    for sc in scripts:
+        plain.add(tuple(op for op in sc if op[0] != "release"))
+        if ("release", 0) not in sc:
+            continue
+        out = list(sc)
+        for i, (op, n) in enumerate(sc):
+            if op == "pub":
+                for op2, _ in sc[i + 1:]:
+                    if op2 == "pub":
+                        break
+                    if op2 == "release":
+                        out[i] = ("hpub", n)
+                        break
+        # a release immediately after its hpub holds nothing
+        if any(out[i][0] == "hpub" and out[i + 1][0] != "release" for i in range(len(out) - 1)):
+            gated.add(tuple(out))
+    plain = sorted(plain)
+    plain = [a for i, a in enumerate(plain) if a and not (i + 1 < len(plain) and plain[i + 1][:len(a)] == a)]
+    return plain, sorted(gated)
+
+
 def with_sync_closes(script, rnd):
     """Variant of a script in which some `aclose n` immediately followed (later) by `join n` become a blocking
     `close n` at the aclose position (the sequential use bus_test.go makes)."""
@@ -396,16 +423,20 @@ def run(pid, tier, seed, replay):
     # J2: TLC-enumerated API-level behaviours
     if tier == "quick":
         ex, rg = gen_exhaustive("MC_gen.cfg")
-        sim, _ = gen_simulated(150, 40, seed)
+        sim, _ = gen_simulated(200, 40, seed)
         conc_plan = [(seed, "small", 120), (seed, "big", 25)]
     else:
         ex, rg = gen_exhaustive("MC_gen3.cfg")
         sim, _ = gen_simulated(3000, 60, seed)
         conc_plan = [(s, sz, n) for s in range(seed, seed + 5) for sz, n in (("small", 400), ("big", 100))]
+    ex, gated = split_gated(ex)
+    sim, sim_gated = split_gated(sim)
     variants = [with_sync_closes(s, rnd) for s in rnd.sample(ex, min(len(ex), 200 if tier == "quick" else 3000))]
-    scripts = list(CURATED) + ex + sorted(set(variants) - set(ex)) + sim
+    variants = sorted(set(variants) - set(ex))
+    scripts = list(CURATED) + ex + variants + gated + sim + sim_gated
     cov["generator"] = {"model_states_covered": rg.distinct, "exhaustive_scripts": len(ex),
-                        "sync_close_variants": len(scripts) - len(CURATED) - len(ex) - len(sim),
+                        "gated_scripts_event_held_in_flight": len(gated) + len(sim_gated),
+                        "sync_close_variants": len(variants),
                         "simulated_scripts": len(sim), "curated": len(CURATED)}
     cov["exhaustive"] = True   # every state of the bounded generator model is reached by some replayed script
     vlib.log("[C15] J1 done, %d scripts to replay" % len(scripts))
